@@ -145,6 +145,17 @@ CHECKS = {
             'f(X)=f(X1,X2), MIN/MAX(X)=MIN/MAX of the parts. Held on the executions observed.',
             'Trusted: vf/xlref folds. Dates inside areas and aggregates of no numbers accept either reading; text/blank '
             'arguments of AND/OR and non-numeric scalar arguments are not generated.'),
+    'C13': ('runtime monitoring: boundary oracle = lazy reference evaluator over all truth assignments of the condition cells; '
+            'L1 evaluation trace (canary cells of untaken IF branches)',
+            'All 125 skeletons of IF/IFS/IFERROR nests of depth <=2 (plus IF-only depth 3; thorough: sampled depth 3) are placed '
+            'in 11 contexts (bare, operands of + * & and of a comparison, arguments of SUM/ROUND/LEFT, condition of another IF) '
+            'with leaves drawn from numbers, texts, canary formula cells, failing expressions, failing cells, error texts and a '
+            'failing lookup; their conditions are cells swept over every truth assignment (0/1, FALSE/TRUE, other non-zero) '
+            'through overrides; values are compared with vf/xlref\'s lazy evaluation (#N/A demanded exactly for IFS without a '
+            'true condition), and the _cell_preprocessor trace must not contain canary cells of an untaken IF branch. '
+            'Held on the executions observed.',
+            'Trusted: vf/xlref lazy semantics. What an enclosing operator does with an error VALUE delivered by a nest is not '
+            'judged (not claimed by the statement); text conditions not generated.'),
     'C18': ('runtime monitoring: hooked state assertion on Excel.parse (grid, titles, sizes) + boundary observation of every '
             'planted constant vs the generator\'s cell map cross-read by openpyxl\'s regular loader',
             'Generated sparse workbooks (1-12 worksheets in random order, chart sheets between them, empty sheets, blocks away '
